@@ -42,14 +42,26 @@ type Config struct {
 	Faults    int  // budget of link down/up and offline events
 	Depth     int
 	Filters   []string
+	Clients   int   // client connections per broker (default 1)
+	OnlyOn    []int // brokers that have clients (default: all)
 }
 
 type node struct {
-	env    *brokerx.Env
-	name   mesh.PeerName
-	client *session.Client // the subscriber client (nil when not connected)
-	probe  *session.Client
-	subbed map[string]bool // reference: filters the client holds
+	env     *brokerx.Env
+	name    mesh.PeerName
+	clients []*session.Client // subscriber clients (nil when not connected)
+	probe   *session.Client
+	held    []map[string]bool // reference: filters each client holds
+}
+
+// subbed reports whether any client of the broker holds the filter.
+func (n *node) subbed(f string) bool {
+	for _, h := range n.held {
+		if h[f] {
+			return true
+		}
+	}
+	return false
 }
 
 type link struct {
@@ -205,7 +217,15 @@ func (in *inst) send(l *link, d mesh.GossipData) {
 func newInst(cfg Config) *inst {
 	in := &inst{cfg: cfg, used: map[string]int{}}
 	for i := 0; i < cfg.N; i++ {
-		n := &node{subbed: map[string]bool{}}
+		n := &node{}
+		k := cfg.Clients
+		if k == 0 {
+			k = 1
+		}
+		for c := 0; c < k; c++ {
+			n.clients = append(n.clients, nil)
+			n.held = append(n.held, map[string]bool{})
+		}
 		n.env = brokerx.MustNew(brokerx.Options{Node: i + 1, KeepGossip: true})
 		n.name = n.env.Svc.VerifCluster().VerifName()
 		in.nodes = append(in.nodes, n)
@@ -243,10 +263,14 @@ func newInst(cfg Config) *inst {
 func (in *inst) alphabet() []string {
 	var ops []string
 	for i := range in.nodes {
-		for _, f := range in.cfg.Filters {
-			ops = append(ops, fmt.Sprintf("sub:%d:%s", i, f), fmt.Sprintf("unsub:%d:%s", i, f))
+		if in.hasClients(i) {
+			for c := range in.nodes[i].clients {
+				for _, f := range in.cfg.Filters {
+					ops = append(ops, fmt.Sprintf("sub:%d.%d:%s", i, c, f), fmt.Sprintf("unsub:%d.%d:%s", i, c, f))
+				}
+				ops = append(ops, fmt.Sprintf("drop:%d.%d", i, c))
+			}
 		}
-		ops = append(ops, fmt.Sprintf("drop:%d", i))
 		ops = append(ops, fmt.Sprintf("tick:%d", i))
 	}
 	for _, l := range in.links {
@@ -260,6 +284,18 @@ func (in *inst) alphabet() []string {
 		}
 	}
 	return ops
+}
+
+func (in *inst) hasClients(b int) bool {
+	if len(in.cfg.OnlyOn) == 0 {
+		return true
+	}
+	for _, x := range in.cfg.OnlyOn {
+		if x == b {
+			return true
+		}
+	}
+	return false
 }
 
 func (in *inst) fail(s, w string) {
@@ -286,21 +322,22 @@ func (in *inst) Enabled() []int {
 		p := strings.Split(o, ":")
 		switch p[0] {
 		case "sub":
-			var b int
-			fmt.Sscan(p[1], &b)
-			if in.used["client"] < in.cfg.ClientOps && !in.nodes[b].subbed[p[2]] {
+			var b, k int
+			fmt.Sscanf(p[1], "%d.%d", &b, &k)
+			// symmetry: client k+1 only acts once client k has been used
+			if in.used["client"] < in.cfg.ClientOps && !in.nodes[b].held[k][p[2]] && (k == 0 || in.nodes[b].clients[k-1] != nil || len(in.nodes[b].held[k-1]) > 0 || in.nodes[b].clients[k] != nil) {
 				out = append(out, i)
 			}
 		case "unsub":
-			var b int
-			fmt.Sscan(p[1], &b)
-			if in.used["client"] < in.cfg.ClientOps && in.nodes[b].subbed[p[2]] {
+			var b, k int
+			fmt.Sscanf(p[1], "%d.%d", &b, &k)
+			if in.used["client"] < in.cfg.ClientOps && in.nodes[b].held[k][p[2]] {
 				out = append(out, i)
 			}
 		case "drop":
-			var b int
-			fmt.Sscan(p[1], &b)
-			if in.used["client"] < in.cfg.ClientOps && in.nodes[b].client != nil && len(in.nodes[b].subbed) > 0 {
+			var b, k int
+			fmt.Sscanf(p[1], "%d.%d", &b, &k)
+			if in.used["client"] < in.cfg.ClientOps && in.nodes[b].clients[k] != nil && len(in.nodes[b].held[k]) > 0 {
 				out = append(out, i)
 			}
 		case "tick":
@@ -352,15 +389,15 @@ func (in *inst) Enabled() []int {
 
 var key string
 
-func (in *inst) clientOf(b int) *session.Client {
+func (in *inst) clientOf(b, k int) *session.Client {
 	n := in.nodes[b]
-	if n.client == nil {
-		n.client = session.NewClient(fmt.Sprintf("c%d", b), func(c net.Conn) { n.env.Svc.VerifAttach(c) })
-		if !n.client.Connect(session.ConnectOpts{ClientID: fmt.Sprintf("client%d", b)}) {
+	if n.clients[k] == nil {
+		n.clients[k] = session.NewClient(fmt.Sprintf("c%d.%d", b, k), func(c net.Conn) { n.env.Svc.VerifAttach(c) })
+		if !n.clients[k].Connect(session.ConnectOpts{ClientID: fmt.Sprintf("client%d-%d", b, k)}) {
 			in.fail("harness:no-connack", "CONNECT not acknowledged")
 		}
 	}
-	return n.client
+	return n.clients[k]
 }
 
 func (in *inst) deliver(l *link, gossip bool, src mesh.PeerName) {
@@ -416,34 +453,34 @@ func (in *inst) Apply(i int) {
 	in.guard(func() {
 		switch p[0] {
 		case "sub":
-			var b int
-			fmt.Sscan(p[1], &b)
+			var b, ci int
+			fmt.Sscanf(p[1], "%d.%d", &b, &ci)
 			in.used["client"]++
 			k := in.nodes[b].env.MustKey("#/", key)
-			code, acked := in.clientOf(b).Subscribe(k + "/" + p[2])
+			code, acked := in.clientOf(b, ci).Subscribe(k + "/" + p[2])
 			if !acked || code == 0x80 {
 				in.fail("harness:subscribe-refused", "subscribe refused")
 			}
-			in.nodes[b].subbed[p[2]] = true
-			in.clientOf(b).Drain()
+			in.nodes[b].held[ci][p[2]] = true
+			in.clientOf(b, ci).Drain()
 		case "unsub":
-			var b int
-			fmt.Sscan(p[1], &b)
+			var b, ci int
+			fmt.Sscanf(p[1], "%d.%d", &b, &ci)
 			in.used["client"]++
 			k := in.nodes[b].env.MustKey("#/", key)
-			if !in.clientOf(b).Unsubscribe(k + "/" + p[2]) {
+			if !in.clientOf(b, ci).Unsubscribe(k + "/" + p[2]) {
 				in.fail("harness:no-unsuback", "unsubscribe not acknowledged")
 			}
-			delete(in.nodes[b].subbed, p[2])
+			delete(in.nodes[b].held[ci], p[2])
 		case "drop":
-			var b int
-			fmt.Sscan(p[1], &b)
+			var b, ci int
+			fmt.Sscanf(p[1], "%d.%d", &b, &ci)
 			in.used["client"]++
-			if !in.nodes[b].client.Abort() {
+			if !in.nodes[b].clients[ci].Abort() {
 				in.fail("harness:no-close", "connection not closed")
 			}
-			in.nodes[b].client = nil
-			in.nodes[b].subbed = map[string]bool{}
+			in.nodes[b].clients[ci] = nil
+			in.nodes[b].held[ci] = map[string]bool{}
 		case "tick":
 			var b int
 			fmt.Sscan(p[1], &b)
@@ -563,10 +600,10 @@ func (in *inst) Check() (string, string) {
 			}
 			for _, f := range in.cfg.Filters {
 				has := rem[fmt.Sprintf("%s|%v", nj.name.String(), []uint32(ssidOf(nj, f)))]
-				if nj.subbed[f] && !has {
+				if nj.subbed(f) && !has {
 					return in.sig("missing-forward"), fmt.Sprintf("after gossip quiesced broker %d does not forward %s to broker %d although it has a live local subscriber", i, f, j)
 				}
-				if !nj.subbed[f] && has {
+				if !nj.subbed(f) && has {
 					return in.sig("stale-forward"), fmt.Sprintf("after gossip quiesced broker %d still forwards %s to broker %d which has no subscriber for it", i, f, j)
 				}
 			}
@@ -593,26 +630,28 @@ func (in *inst) Check() (string, string) {
 				return in.sig(in.pending), in.pwhat
 			}
 			for j, nj := range in.nodes {
-				if nj.client == nil {
-					continue
-				}
-				got := 0
-				for _, pk := range nj.client.Drain() {
-					if pk.Type == session.PUBLISH && string(pk.Payload) == payload {
-						got++
+				for ci, cl := range nj.clients {
+					if cl == nil {
+						continue
 					}
-				}
-				want := 0
-				if nj.subbed[f] {
-					want = 1
-				}
-				switch {
-				case got < want:
-					return in.sig("missing-delivery"), fmt.Sprintf("a message published on broker %d to %s did not reach the subscriber on broker %d", i, f, j)
-				case got > want && want == 0:
-					return in.sig("stale-delivery"), fmt.Sprintf("a message published on broker %d to %s reached a client on broker %d that is not subscribed", i, f, j)
-				case got > want:
-					return in.sig("duplicate-delivery"), fmt.Sprintf("a message published on broker %d to %s reached the subscriber on broker %d %d times", i, f, j, got)
+					got := 0
+					for _, pk := range cl.Drain() {
+						if pk.Type == session.PUBLISH && string(pk.Payload) == payload {
+							got++
+						}
+					}
+					want := 0
+					if nj.held[ci][f] {
+						want = 1
+					}
+					switch {
+					case got < want:
+						return in.sig("missing-delivery"), fmt.Sprintf("a message published on broker %d to %s did not reach the subscriber on broker %d", i, f, j)
+					case got > want && want == 0:
+						return in.sig("stale-delivery"), fmt.Sprintf("a message published on broker %d to %s reached a client on broker %d that is not subscribed", i, f, j)
+					case got > want:
+						return in.sig("duplicate-delivery"), fmt.Sprintf("a message published on broker %d to %s reached the subscriber on broker %d %d times", i, f, j, got)
+					}
 				}
 			}
 		}
@@ -628,7 +667,7 @@ func (in *inst) sig(kind string) string {
 		p := strings.Split(o, ":")
 		switch p[0] {
 		case "sub", "unsub", "drop":
-			client = append(client, p[0]+p[1])
+			client = append(client, p[0]+strings.Replace(p[1], ".", "c", 1))
 		case "deliver":
 			feat["delivery-before-burst-end"] = true
 			if p[2] == "gossip" {
@@ -743,12 +782,14 @@ func (in *inst) computeKey() string {
 				fmt.Fprintf(&b, " peer%s=%v", o.name, cs)
 			}
 		}
-		var ms []string
-		for f := range n.subbed {
-			ms = append(ms, f)
+		for ci, h := range n.held {
+			var ms []string
+			for f := range h {
+				ms = append(ms, f)
+			}
+			sort.Strings(ms)
+			fmt.Fprintf(&b, " model%d=%v conn=%v", ci, ms, n.clients[ci] != nil)
 		}
-		sort.Strings(ms)
-		fmt.Fprintf(&b, " model=%v conn=%v", ms, n.client != nil)
 	}
 	for _, l := range in.links {
 		g, srcs := l.s.Pending()
@@ -762,8 +803,10 @@ func (in *inst) Key() string { return in.key }
 
 func (in *inst) Close() {
 	for _, n := range in.nodes {
-		if n.client != nil {
-			n.client.Conn.CloseClient(false)
+		for _, cl := range n.clients {
+			if cl != nil {
+				cl.Conn.CloseClient(false)
+			}
 		}
 		n.probe.Conn.CloseClient(false)
 		n.env.Close()
@@ -810,6 +853,7 @@ func configs(quick bool) []Config {
 		{Name: "2-brokers-faults", N: 2, ClientOps: 2, Ticks: 1, Faults: 1, Depth: 8, Filters: []string{"a/"}},
 		{Name: "3-mesh", N: 3, ClientOps: 3, Ticks: 0, Depth: 8, Filters: []string{"a/"}},
 		{Name: "3-line", N: 3, Line: true, ClientOps: 3, Ticks: 1, Faults: 1, Depth: 8, Filters: []string{"a/"}},
+		{Name: "2-brokers-two-clients-faults", N: 2, ClientOps: 3, Ticks: 0, Faults: 1, Depth: 8, Filters: []string{"a/"}, Clients: 2, OnlyOn: []int{1}},
 	}
 }
 
